@@ -45,6 +45,7 @@ from typing import Any, Callable, Optional
 from harness.core import Ctx, Driver, REPO, VERIF
 from harness import lib_c04gen as G
 from harness import lib_c04v as GV
+from harness import lib_c04w as GW
 
 PROPS = 'XsVerif.Props.C04'
 AUDIT = 'XsVerif.Audit.C04'
@@ -164,7 +165,7 @@ def report(ctx: Ctx, what: str, case: dict, detail: Any) -> None:
 # --------------------------------------------------------------------------------------------
 # canonical forms
 
-PREFIX_RE = re.compile(r'\b(?:p|o|t|xsi|xs):(?=[A-Za-z_])')
+PREFIX_RE = re.compile(r'\b(?:p|o|t|k|xsi|xs):(?=[A-Za-z_])')
 CLARK_RE = re.compile(r'\{[^}]*\}')
 ADDR_RE = re.compile(r' at 0x[0-9a-fA-F]+')
 
@@ -208,6 +209,9 @@ def canon_data(d: Any) -> Any:
     return '%s:%s' % (type(d).__name__, d)
 
 
+EXTRA_NSMAP = {'k': 'urn:k'}       # family W: the imported namespace
+
+
 def canon_name(k: str) -> str:
     at = k.startswith('@')
     name = k[1:] if at else k
@@ -217,6 +221,8 @@ def canon_name(k: str) -> str:
         p, loc = name.split(':', 1)
         if p in G.NSMAP:
             name = '{%s}%s' % (G.NSMAP[p], loc)
+        elif p in EXTRA_NSMAP:
+            name = '{%s}%s' % (EXTRA_NSMAP[p], loc)
     return ('@' if at else '') + name
 
 
@@ -528,13 +534,15 @@ class Env:
         self.tmp = Path(tempfile.mkdtemp(prefix='verif-c04-'))
         self.schemas: dict = {}
         self.xsd_paths: dict = {}
-        for fam in 'TNV':
+        (self.tmp / GW.WK_FILE).write_text(GW.XSD_WK)
+        for fam in 'TNVW':
             for v11 in (False, True):
-                text = GV.xsd_text(v11) if fam == 'V' else G.xsd_text(fam, v11)
+                text = GV.xsd_text(v11) if fam == 'V' else GW.xsd_text(v11) if fam == 'W' else G.xsd_text(fam, v11)
                 p = self.tmp / ('schema_%s_%s.xsd' % (fam, '11' if v11 else '10'))
                 p.write_text(text)
                 self.xsd_paths[fam, v11] = p
-                self.schemas[fam, v11] = (xmlschema.XMLSchema11 if v11 else xmlschema.XMLSchema10)(text)
+                # family W imports a second schema document: built from the file
+                self.schemas[fam, v11] = (xmlschema.XMLSchema11 if v11 else xmlschema.XMLSchema10)(str(p) if fam == 'W' else text)
         self.rec = Recorder()
         self.rec.install()
         self.n = 0
@@ -685,6 +693,8 @@ def run_case(env: Env, case: dict, kinds: list[str], reqs: Optional[list], pend:
         ctx.count('V:omitted:' + t)           # value constraint in effect: the instance omits the attribute / text
     for t in case.get('explicit', []):
         ctx.count('V:explicit:' + t)
+    for t in case.get('dims', []):
+        ctx.count('W:' + t)                    # wildcard kind : processContents : what the name resolves to
     ctx.count('verdict:' + ('invalid' if invalid else 'valid'))
     ctx.count('errors:%s' % (nerr if nerr < 5 else '5+'))
     for f in case.get('faults', []):
@@ -717,7 +727,7 @@ def component_case(env: Env, case: dict, schema: Any, canon: Callable, reqs: Opt
     ctx = env.ctx
     pc = public_case(case)
     xkw = xkw or {}
-    if case['family'] == 'V':
+    if case['family'] in 'VW':
         m = re.match(r'<p:(\w+)', case['xml'])
         tag = '{%s}%s' % (G.TNS, m.group(1) if m else 'reg')
     else:
@@ -852,6 +862,145 @@ def union_unit(env: 'Env', drv: Optional[Driver]) -> None:
             ctx.traces += 1
             if any(ans.get(m) != real[m] for m in MODES):
                 ctx.mismatch('XsdUnion.raw_decode', case, real, ans)
+
+
+WILD_ATTR_NAMES = ['{urn:t}ta', '{urn:k}ka', '{urn:t}zz', '{urn:k}zz', '{urn:o}oa', 'plain',
+                   '{http://www.w3.org/XML/1998/namespace}lang']
+WILD_ATTR_VALUES = ['1', 'x', '']
+
+
+def wildcards_of(env: 'Env', v11: bool) -> list[tuple[str, Any]]:
+    """Every wildcard component of the schema families (name for the case, component)."""
+    from xmlschema.validators import XsdAnyElement
+    out = []
+    w = env.schemas['W', v11]
+    for tname in ('wsT', 'wlT', 'wkT', 'woT'):
+        t = w.types[tname]
+        out.append(('W/%s/anyAttribute' % tname, t.attributes[None]))
+        out.append(('W/%s/any' % tname, next(x for x in t.content.iter_components(XsdAnyElement))))
+    t = env.schemas['T', v11].elements['root'].type
+    out.append(('T/root/anyAttribute', t.attributes[None]))
+    out.append(('T/root/any', next(x for x in t.content.iter_components(XsdAnyElement))))
+    return out
+
+
+def wildcard_unit(env: 'Env', drv: Optional[Driver], only: Optional[dict] = None) -> None:
+    """XsdAnyAttribute.raw_decode / XsdAnyElement.raw_decode against Modes.anyAttrEvents / anyElemEvents:
+    every wildcard of the schema families x name class x value x mode, through the component-level API."""
+    import lxml.etree as LE
+    from xmlschema import XMLSchemaValidationError
+    from xmlschema.validators import XsdAnyAttribute
+    from xmlschema.validators.validation import DecodeContext
+    from xmlschema.names import XSI_TYPE
+    ctx = env.ctx
+    reqs, pend = [], []
+
+    def ns_of(name: str) -> str:
+        return name[1:].split('}')[0] if name.startswith('{') else ''
+
+    def modes(wc: Any, make: Callable[[], Any], ids: Ids, is_attr: bool) -> dict:
+        real: dict[str, Any] = {}
+        for m in MODES:
+            try:
+                if is_attr:
+                    # the component-level API does not accept a (name, value) pair as source (TypeError from
+                    # get_resource_from_data): raw_decode is called with a context made the way iter_decode makes it
+                    obj = make()
+                    src = wc.maps.settings.get_resource_from_data(obj[1], None)
+                    dctx = DecodeContext(source=src, converter=wc.maps.settings.get_converter(source=src))
+                    wc.raw_decode(obj, m, dctx)
+                    real[m] = [ids.e(err_key(e)) for e in dctx.errors]
+                else:
+                    r = wc.decode(make(), validation=m)
+                    real[m] = [ids.e(err_key(e)) for e in r[1]] if m == 'lax' else []
+            except XMLSchemaValidationError as e:
+                real[m] = [ids.e(err_key(e))]
+        return real
+
+    for v11 in (False, True):
+        v = '1.1' if v11 else '1.0'
+        for wname, wc in wildcards_of(env, v11):
+            maps = wc.maps
+            is_attr = isinstance(wc, XsdAnyAttribute)
+            if is_attr:
+                objs = [({'name': n, 'value': val}, (lambda n=n, val=val: (n, val)), n) for n in WILD_ATTR_NAMES
+                        for val in WILD_ATTR_VALUES]
+            else:
+                objs = []
+                for xml, _cls, _bad, _x in GW.ELEM_ITEMS:
+                    wrapped = '<p:box %s>%s</p:box>' % (GW.ROOT_NS_XSI, xml)
+                    objs.append(({'xml': xml}, (lambda wrapped=wrapped: LE.fromstring(wrapped)[0]),
+                                 LE.fromstring(wrapped)[0].tag))
+            for desc, make, name in objs:
+                case = dict(desc, v=v, wildcard=wname, processContents=wc.process_contents)
+                if only is not None and {k: only.get(k) for k in case} != case:
+                    continue
+                ids = Ids()
+                try:
+                    real = modes(wc, make, ids, is_attr)
+                    ek = {n: k for k, n in ids.err.items()}
+                    # the property on the real code
+                    if (real['strict'] == []) != (real['lax'] == []):
+                        ctx.failure('wildcard: a name is rejected in one mode and accepted in the other', case,
+                                    {m: [ek[x] for x in real[m]] for m in MODES})
+                    elif real['strict'] != real['lax'][:1]:
+                        # (a declared attribute of a union type shows finding C04-F3 here as everywhere)
+                        report(ctx, 'wildcard: strict mode does not raise the first error that lax mode collects', case,
+                               {'kind': 'first-error', 'raised': ek[real['strict'][0]], 'first': ek[real['lax'][0]],
+                                **{m: [ek[x] for x in real[m]] for m in MODES}})
+                    if real['skip']:
+                        ctx.failure('wildcard: skip mode raised', case, {m: [ek[x] for x in real[m]] for m in MODES})
+                    # model inputs by introspection
+                    ns = ns_of(name)
+                    obj = make()
+                    if not maps.loader.load_namespace(ns):
+                        lookup: Any = 'unavailable'
+                    elif name not in (maps.attributes if is_attr else maps.elements):
+                        lookup = 'notFound'
+                    elif is_attr:
+                        lookup = [ids.e(err_key(e)) for e in maps.attributes[name].decode(obj[1], validation='lax')[1]]
+                    else:
+                        lookup = [ids.e(err_key(e)) for e in maps.elements[name].decode(obj, validation='lax')[1]]
+                    req = {'op': 'wild', 'kind': 'attr' if is_attr else 'elem', 'pc': wc.process_contents,
+                           'matching': bool(wc.is_matching(name)), 'ps': False, 'lookup': lookup}
+                    if is_attr:
+                        req['eNA'] = ids.e('XMLSchemaValidationError||' + norm_text("attribute %r not allowed" % name))
+                        req['eNF'] = ids.e('XMLSchemaValidationError||' + norm_text("attribute %r not found" % name))
+                        req['eUn'] = ids.e('XMLSchemaValidationError||' + norm_text("unavailable namespace {!r}".format(ns)))
+                    else:
+                        pth = '/' + name.split('}')[-1]          # the element is the root of the decoded source
+                        req['eNA'] = ids.e('XMLSchemaValidationError|%s|' % pth + norm_text("element {!r} is not allowed here".format(obj)))
+                        req['eNF'] = ids.e('XMLSchemaValidationError|%s|' % pth + norm_text(f"element {name!r} not found"))
+                        req['eUn'] = ids.e('XMLSchemaValidationError|%s|' % pth + norm_text("unavailable namespace {!r}".format(ns)))
+                        req['xsiType'] = XSI_TYPE in obj.attrib
+                        anon: list = []
+                        if not isinstance(lookup, list) and not (wc.process_contents == 'skip'):
+                            kw = {} if (wc.process_contents == 'strict' or not req['xsiType']) else {'nillable': 'true'}
+                            created = wc.builders.create_element(name, maps.validator, parent=wc, form='unqualified', **kw)
+                            anon = [ids.e(err_key(e)) for e in created.decode(obj, validation='lax')[1]]
+                        req['anon'] = anon
+                except RecursionError:
+                    raise
+                except Exception as e:  # noqa
+                    report(ctx, 'wildcard component raised something else than a validation error', case,
+                           {'kind': 'exception', 'exc': type(e).__name__, 'msg': str(e)[:200], 'entry': 'wildcard.decode'})
+                    continue
+                ctx.case(case, bool(real['lax']) or not req['matching'], tag='wildcard-unit')
+                ctx.count('wild:%s:%s:%s%s' % ('attr' if is_attr else 'elem', wc.process_contents,
+                                                'declared' if isinstance(lookup, list) else lookup,
+                                                '' if req['matching'] else ':not-admitted'))
+                reqs.append(req)
+                pend.append((case, real, {n: k for k, n in ids.err.items()}))
+    if drv is not None and reqs:
+        for (case, real, ek), ans in zip(pend, drv.query(reqs)):
+            ctx.traces += 1
+            if 'err' not in ans and ans['lax'] == real['lax'] and ans['skip'] == real['skip'] and \
+                    len(ans['strict']) == len(real['strict']) == 1 and \
+                    f3_applies(ctx, {'raise': ek[real['strict'][0]]}, {'raise': ek[ans['strict'][0]]}):
+                continue
+            if 'err' in ans or any(ans.get(m) != real[m] for m in MODES):
+                ctx.mismatch('wildcard raw_decode', case, {m: [ek.get(x, x) for x in real[m]] for m in MODES},
+                             ans if 'err' in ans else {m: [ek.get(x, x) for x in ans[m]] for m in MODES})
 
 
 def compare(ctx: Ctx, reqs: list, pend: list, drv: Driver) -> None:
@@ -1050,12 +1199,26 @@ def gen_cases(ctx: Ctx, n: int) -> list[dict]:
         if ctx.rng.random() < 0.6:
             c['lite'] = True
         vcases.append(c)
+    # family W: wildcards x processContents x what the name resolves to.  Small scope: every (carrier, item) as the
+    # only possibly-bad item of a document (versions alternate); then random documents with 0-3 bad items
+    wcases = []
+    for i, c in enumerate(GW.small_scope(ctx.rng, False)):
+        if i % 2:
+            c['v'] = '1.1'
+        if ctx.quick() and ctx.rng.random() < 0.7:
+            c['lite'] = True
+        wcases.append(c)
+    for _ in range(max(8, n // 5)):
+        c = GW.gen_case_W(ctx.rng, ctx.rng.random() < 0.5)
+        if ctx.rng.random() < 0.6:
+            c['lite'] = True
+        wcases.append(c)
     # configuration use_defaults=False on every entry point (defaults are not applied, fixed values are)
     nodef = []
     for c in cases + vcases:
         if ctx.rng.random() < (0.3 if c['family'] == 'V' else 0.06):
             nodef.append(dict(c, ud=False))
-    return cases + extra + vcases + nodef
+    return cases + extra + vcases + nodef + wcases
 
 
 def kinds_for(case: dict) -> list[str]:
@@ -1080,6 +1243,10 @@ def witness_cases() -> list[dict]:
         {'v': '1.0', 'family': 'V', 'style': 'prefix', 'prefix_dependent': False,
          'faults': ['ID value constraint of an omitted IDREF dangling (default a1)'], 'omitted': ['attr:idref:default@child'],
          'xml': '<p:reg xmlns:p="urn:t"><p:r1 id="b1"/></p:reg>'},
+        # wildcard_guard_counterexample: a name admitted by a strict attribute wildcard, known namespace, no declaration
+        {'v': '1.0', 'family': 'W', 'style': 'prefix', 'prefix_dependent': False,
+         'faults': ['W attr strict not found(target)'], 'dims': ['attr:strict:not found(target)'],
+         'xml': '<p:box %s><p:ws p:zz="1"/></p:box>' % GW.ROOT_NS},
     ]
 
 
@@ -1102,12 +1269,15 @@ def run(ctx: Ctx, driver_ok: bool) -> None:
                 reqs, pend = [], []
         if drv and reqs:
             compare(ctx, reqs, pend, drv)
-        sample = [c for c in cases[len(witness_cases()):] if c['family'] in 'TNV' and c.get('ud', True)]
+        wildcard_unit(env, drv)
+        sample = [c for c in cases[len(witness_cases()):] if c['family'] in 'TNVW' and c.get('ud', True)]
         ctx.rng.shuffle(sample)
         cli_checks(env, drv, sample[:ctx.pick(6, 40)])
         ctx.extra['source_kinds'] = SOURCE_KINDS
         ctx.extra['entry_points_per_source'] = len(entry_points(env.schemas['T', False], canon_data))
         ctx.extra['fault_classes'] = G.FAULT_NAMES + ['V:' + x for x in GV.V_FAULT_NAMES]
+        ctx.extra['wildcard_items'] = {'carriers': GW.CARRIERS, 'attributes': [x[1] for x in GW.ATTR_ITEMS],
+                                       'elements': [x[1] for x in GW.ELEM_ITEMS]}
         ctx.extra['value_constraint_carriers'] = {k: ['%s:%s:%s=%s' % (a or 'text', kd, how, val) for a, kd, how, val in v]
                                                  for k, v in GV.CONSTRAINTS.items()}
     finally:
@@ -1252,6 +1422,9 @@ def replay(ctx: Ctx, obj: dict) -> int:
     try:
         if 'cli' in case and 'xml' not in case:
             cli_checks(env, None, [])
+        elif 'wildcard' in case:
+            drv_path = Driver('drv_c04').path
+            wildcard_unit(env, Driver('drv_c04') if drv_path.exists() else None, only=case)
         else:
             case.setdefault('style', 'prefix')
             case.setdefault('prefix_dependent', 'xsi:type' in case['xml'] or '>p:' in case['xml'])
